@@ -183,7 +183,8 @@ def histories(rng, n, lo=5, hi=40, n_long=None, **kw):
     out = []
     for i in range(n):
         g = lvl.HistGen(rng, big=(i % 12 == 0), **kw)
-        out.append((g.price, g.history(rng.randint(lo, hi))))
+        g.upd_heavy = (i % 9 == 4)
+        out.append((g.price, g.history(rng.randint(lo, hi) * (2 if g.upd_heavy else 1))))
     n_long = max(20, n // 40) if n_long is None else n_long
     for i in range(n_long):
         g = lvl.HistGen(rng, **kw)
